@@ -505,6 +505,33 @@ def fromCartAngles (tr : Trig α) (v : V3 α) : α × α := (tr.atan2 v.y v.x, t
 
 end Resid
 
+/-! ## 6. Quaternion averaging in `_avarage_poses`: the matrix handed to the eigen-solver
+
+`q_average(Q)` returns the dominant eigenvector of `Q.T @ Q = Σᵢ qᵢ qᵢᵀ` (the eigen-decomposition itself is numerics,
+a parameter `domEig`).  What is modelled is that the average is a function of that outer-product sum only. -/
+section QAvg
+variable {α : Type} [Add α] [Mul α] [Neg α] [OfNat α 0]
+
+/-- `q qᵀ` -/
+def outer (q : List α) : List (List α) := q.map fun a => q.map fun b => a * b
+
+def matAdd (A B : List (List α)) : List (List α) := List.zipWith (List.zipWith (· + ·)) A B
+
+def zeroMat (n : Nat) : List (List α) := List.replicate n (List.replicate n 0)
+
+/-- `Q.T @ Q` for the rows `qs` of `Q` (each of length `n`) -/
+def gram (n : Nat) : List (List α) → List (List α)
+  | [] => zeroMat n
+  | q :: rest => matAdd (outer q) (gram n rest)
+
+/-- `q_average`: `eigvecs[:, eigvals.argmax()]` of `eigh(Q.T @ Q)` -/
+def qAverage (domEig : List (List α) → List α) (qs : List (List α)) : List α := domEig (gram 4 qs)
+
+/-- the same rotation written with the other sign of its quaternion -/
+def flipSign (flip : Bool) (q : List α) : List α := if flip then q.map (fun a => -a) else q
+
+end QAvg
+
 /-! ## 4. IPPE <-> CF axis permutation -/
 
 abbrev Mat := List (List Int)
